@@ -68,6 +68,7 @@ func H_STD() {
 		vx.Assert("STD", err == nil && n == 123, "strconv.Atoi")
 		vx.Assert("STD", fmt.Sprintf("%s/%d/%v/%x", "a", 1, true, []byte{1, 171}) == "a/1/true/01ab", "fmt.Sprintf")
 		vx.Assert("STD", fmt.Sprint("a", 1) == "a1", "fmt.Sprint")
+		vx.Assert("STD", string(fmt.Appendf([]byte("x="), "%d,%s", 7, []byte("yz"))) == "x=7,yz" && string(fmt.Append(nil, "a", 2, 3)) == "a2 3", "fmt.Appendf / Append")
 	case 2: // bytes
 		var buf bytes.Buffer
 		buf.WriteString("ab")
